@@ -66,6 +66,36 @@ def check_ess(ctx, rule, construct, loc, ess, log_w):
                       f"effective sample size {T.show(ess)[:400]} is not (sum w)^2/sum w^2 of the log-weights {T.show(log_w)[:120]} in any accepted form")
 
 
+def cancellation_rule(ctx, ev, m, construct, shifted, obj_names=("self", "sliced")):
+    """C02.cancel: the ESS is computed from log-weights that were shifted first.
+    exp(2*LSE(u) - LSE(2u)) is algebraically shift invariant, but evaluated on
+    unshifted u it is a difference of two numbers of size 2*max|u|: in float32
+    the cancellation error reaches several per cent for |u| ~ 1e5 (ESS > N)."""
+    import ast as _ast
+
+    for st in _ast.walk(m.node):
+        if not isinstance(st, _ast.Assign):
+            continue
+        tg = st.targets[0]
+        if not (isinstance(tg, _ast.Attribute) and tg.attr == "effective_sample_size"):
+            continue
+        inside = {id(n) for n in _ast.walk(st)}
+        evs = [e for e in ev.events if id(e.node) in inside and (e.callee.endswith("logsumexp") or e.callee.endswith("effective_sample_size"))]
+        bad = []
+        for e in evs:
+            if not e.args:
+                continue
+            from .common import shift_weight
+            sw = shift_weight(e.args[0], shifted)
+            if sw is None or sw != 0:
+                bad.append((e, sw))
+        ctx.decide(not bad and bool(evs) or (not evs), "C02.cancel", construct, loc_of(m, st),
+                   "the ESS is computed from max-shifted log-weights (no large cancelling terms)",
+                   (f"the ESS is computed from unshifted log-weights ({T.show(bad[0][0].args[0])[:80]} moves by {bad[0][1]}*c under a constant shift): "
+                    "2*LSE(u) - LSE(2u) then cancels two numbers of size 2*max|u|; in single precision the ESS is off by per cents for |log w| ~ 1e5 and can exceed N") if bad else "",
+                   disc=f"L{sum(1 for x in _ast.walk(m.node) if isinstance(x, _ast.Assign) and x.lineno < st.lineno)}")
+
+
 def _leaf_when_weights(t):
     """Pick the value on the path where weights are computed (non-None leaf)."""
     leaves = [l for l in T.phi_leaves(t) if l != T.NONE and not (l[0] == "attr" and l[1][0] == "obj")]
@@ -115,6 +145,7 @@ def run(ctx):
             ctx.unknown("C02.ess", construct, loc, "no store to self.effective_sample_size")
         else:
             check_ess(ctx, "C02.ess", construct, loc, ess, log_w)
+        cancellation_rule(ctx, ev, m, construct, shifted)
         # derived quantities
         wts, evd, err, rel = (ev.heap.get((SELF, k)) for k in ("weights", "evidence", "evidence_error", "log_evidence_error"))
         if wts is not None:
@@ -168,6 +199,7 @@ def run(ctx):
         raise AnalysisError("Samples.__getitem__ not found")
     ev, ret = fold(repo, gi, S)
     ctx.count("functions_folded")
+    cancellation_rule(ctx, ev, gi, gi.ident, {self_attr("log_w"): 1, ("s", self_attr("log_w"), T.atom("idx")): 1})
     objs = [l for l in T.phi_leaves(ret) if l and l[0] == "obj"]
     if not objs:
         ctx.unknown("C02.ess", gi.ident, loc_of(gi), "selection does not return a constructed sample set")
@@ -330,6 +362,8 @@ MUTANTS = [
       "C02.ovf", within="Samples.compute_weights"),
 ]
 MUTANTS += [
+    M("ESS from unshifted log-weights via the helper", _S, "log_w = self.log_w - self.xp.max(self.log_w)\n        self.effective_sample_size = self.xp.exp(\n            asarray(logsumexp(log_w) * 2 - logsumexp(log_w * 2), self.xp)\n        )",
+      "self.effective_sample_size = self.xp.exp(\n            asarray(logsumexp(self.log_w) * 2 - logsumexp(self.log_w * 2), self.xp)\n        )", "C02.cancel"),
     M("ESS helper in the plain Kish form", _U, "return xp.exp(xp.asarray(logsumexp(log_w) * 2 - logsumexp(log_w * 2)))", "w = xp.exp(log_w)\n    return xp.sum(w) ** 2 / xp.sum(w**2)", "C02.ovf"),
     M("weights of the squared log-weight", _S, "self.weights = self.xp.exp(self.log_w)", "self.weights = self.xp.exp(2 * self.log_w)", "C02.derived"),
     M("evidence error divides by N squared", _S, "self.xp.sum((self.weights - self.evidence) ** 2) / (n * (n - 1))", "self.xp.sum((self.weights - self.evidence) ** 2) / (n * n)", "C02.derived"),
